@@ -31,7 +31,7 @@ SPEC = {
         "params/staking_params.go:YOUToStake", "params/staking_params.go:KindOfRole",
     ],
     "harness": "c08",
-    "hooks": ["core/state/zz_verif_c08.go", "staking/zz_verif_c08.go"],
+    "hooks": None,  # set below: _Hooks()
     "translators": [["params", "-out", "{gen}/C08Params.v"], ["callers", "-out", "{gen}/C08Callers.v"]],
     "coq_targets": ["C08/Model.vo", "C08/Abstract.vo", "C08/ProofsA.vo", "C08/ProofsSim.vo", "C08/Proofs.vo",
                     "C08/Witnesses.vo", "gen/C08Params.vo", "gen/C08Callers.vo", "C08/Bridge.vo", "C08/Properties.vo"],
@@ -83,3 +83,96 @@ SPEC = {
         "takePenalty / settlement arithmetic of package staking is not modelled (updates are modelled generically as PartialCopy + field writes + UpdateValidator)",
     ],
 }
+
+
+# ---- hooks that may stop compiling -------------------------------------------------------
+# Every unexported staking function the harness runs has its own hook file.  When a change of
+# the tree under test alters such a function's signature, only that file is left out of the
+# build (the harness finds its hooks through a registry and skips the steps that need a missing
+# one); the loss is reported as a broken obligation while everything else still runs and can
+# produce an oracle replay.  The whole-block scenarios use the exported staking.EndBlock.
+_BASE_HOOKS = ["core/state/zz_verif_c08.go", "staking/zz_verif_c08.go"]
+_OPTIONAL_HOOKS = ["staking/zz_verif_c08_te.go", "staking/zz_verif_c08_penalize.go", "staking/zz_verif_c08_inactivity.go",
+                   "staking/zz_verif_c08_rewards.go", "staking/zz_verif_c08_distribute.go", "staking/zz_verif_c08_settle.go"]
+_resolved = {}
+
+
+def _raw_build(hooks):
+    """vf.build_harness without taking the "go" lock: for use while vf already holds it (the hook list is
+    iterated inside that lock; taking it again from the same process would block for ever)."""
+    import os, shutil
+    import vf
+    h = os.path.join(vf.VERIF, "harness")
+    shutil.copyfile(os.path.join(vf.REPO, "go.sum"), os.path.join(h, "go.sum"))
+    ov = vf.overlay_file("c08", list(hooks))
+    out = os.path.join(vf.BUILD, "c08")
+    cmd = ["go", "build", "-tags", "verif", "-overlay", ov, "-o", out]
+    if vf.REPO != "/repo":
+        mf = os.path.join(vf.BUILD, "alt_c08.go.mod")
+        open(mf, "w").write(open(os.path.join(h, "go.mod")).read().replace("=> /repo", "=> " + vf.REPO))
+        shutil.copyfile(os.path.join(vf.REPO, "go.sum"), os.path.join(vf.BUILD, "alt_c08.go.sum"))
+        cmd += ["-modfile", mf]
+    rc, log = vf.sh(cmd + ["./cmd/c08"], cwd=h, env=vf.GOENV, timeout=1500)
+    return rc == 0, log, out
+
+
+def _resolve_hooks(locked=False):
+    """Builds the harness with every hook; drops the optional hook files the compiler complains about and retries.
+    locked: the caller (vf.build_harness -> overlay_file -> iteration of the hook list) already holds the go lock."""
+    import os, re
+    import vf
+    key = vf.REPO
+    if key in _resolved:
+        return _resolved[key]
+    build = _raw_build if locked else (lambda hooks: vf.build_harness("c08", list(hooks)))
+    hooks, dropped = _BASE_HOOKS + _OPTIONAL_HOOKS, []
+    for _ in range(len(_OPTIONAL_HOOKS) + 1):
+        ok, log, _bin = build(hooks)
+        if ok:
+            break
+        named = set(re.findall(r"zz_verif_c08_\w+\.go", log))
+        bad = [h for h in hooks if h in _OPTIONAL_HOOKS and os.path.basename(h) in named]
+        if not bad:
+            break  # not a hook problem: the normal build step reports it
+        dropped += bad
+        hooks = [h for h in hooks if h not in bad]
+    _resolved[key] = (hooks, dropped)
+    return _resolved[key]
+
+
+class _Hooks(list):
+    """The hook list, resolved against the tree under test on first use.  bin/check resolves it before the build
+    (_check); --replay and bin/setup reach it from inside vf.build_harness, i.e. under the go lock."""
+    def __bool__(self):
+        return True
+
+    def __iter__(self):
+        return iter(_resolve_hooks(locked=True)[0])
+
+    def __len__(self):
+        return len(_resolve_hooks(locked=True)[0])
+
+
+SPEC["hooks"] = _Hooks()
+
+
+def _check(pid, tier, seed):
+    import vf
+    hooks, dropped = _resolve_hooks(locked=False)
+    orig = vf.Run.build
+
+    def build(self):
+        ok = orig(self)
+        for h in dropped:
+            self.say("hook %s does not compile against this tree: the harness runs without the steps that need it" % h)
+            self.broken.append("hook %s does not compile against this tree (a function it wraps has changed its signature)" % h)
+        return ok
+    vf.Run.build = build
+    try:
+        return vf.standard_check(pid, tier, seed)
+    finally:
+        vf.Run.build = orig
+
+
+SPEC["check"] = _check
+
